@@ -5,7 +5,7 @@
 //
 // Op line:
 //
-//	changes <level 0|u|N> <files> <changed0> <names> <pkgs> <nodes> <adj> <inputs> <tools>
+//	changes <level 0|u|N> <files> <changed0> <names> <pkgs> <nodes> <adj> <inputs> <tools> <labels> <include> <exclude>
 //
 //	<files>     changed files, repo-relative clean paths, "," separated ("-" = none)
 //	<changed0>  ids DiffGraphs found changed before looking at files (empty for query.Changes)
@@ -14,6 +14,9 @@
 //	<nodes>     ids in AllTargets order; <adj> id:deps;… flattened DeclaredDependencies/ProvideFor
 //	<inputs>    id:path|path|…;…  the String() of AllSources()++AllData() of each target ("-" = none)
 //	<tools>     id:path|…;…  local file tools (AllTools() that are FileLabels)
+//	<labels>    id:label|label;…  target.Labels
+//	<include> <exclude>  state.Include / state.Exclude: entries separated by ';', an entry is a comma-separated list of
+//	            labels that a target must ALL have (`plz query changes` always excludes `manual`)
 //
 // Output: ids of the reported labels in label order.
 package main
@@ -180,6 +183,78 @@ func lvlStr(l int) string {
 	return fmt.Sprint(l)
 }
 
+// filt: the --include / --exclude configuration of the query
+type filt struct{ include, exclude []string }
+
+func (f filt) field(xs []string) string { return dash(strings.Join(xs, ";")) }
+
+// included: the reference reading of --include/--exclude (independent of core.BuildTarget.ShouldInclude): a target is shown
+// when it carries all labels of some include entry (or there is no include entry) and not all labels of any exclude entry.
+func included(labels []string, f filt) bool {
+	has := func(entry string) bool {
+		for _, l := range strings.Split(entry, ",") {
+			found := false
+			for _, x := range labels {
+				if x == l {
+					found = true
+				}
+			}
+			if !found {
+				return false
+			}
+		}
+		return true
+	}
+	ok := len(f.include) == 0
+	for _, e := range f.include {
+		if has(e) {
+			ok = true
+		}
+	}
+	for _, e := range f.exclude {
+		if has(e) {
+			return false
+		}
+	}
+	return ok
+}
+
+// withFilter runs fn with the state's include/exclude set, and restores the state afterwards.
+func withFilter(st *core.BuildState, f filt, fn func()) {
+	oi, oe := st.Include, st.Exclude
+	st.Include, st.Exclude = f.include, f.exclude
+	defer func() { st.Include, st.Exclude = oi, oe }()
+	fn()
+}
+
+// withinSteps: targets that reach a seed along at most n dependency edges (n < 0: any number)
+func (w *world) withinSteps(seed map[int]bool, n int) map[int]bool {
+	dist := map[int]int{}
+	for k := range seed {
+		dist[k] = 0
+	}
+	for changed := true; changed; {
+		changed = false
+		for a := 0; a < w.n; a++ {
+			for _, b := range w.adj[a] {
+				if db, ok := dist[b]; ok {
+					if da, ok2 := dist[a]; !ok2 || db+1 < da {
+						dist[a] = db + 1
+						changed = true
+					}
+				}
+			}
+		}
+	}
+	out := map[int]bool{}
+	for k, d := range dist {
+		if n < 0 || d <= n {
+			out[k] = true
+		}
+	}
+	return out
+}
+
 func dash(s string) string {
 	if s == "" {
 		return "-"
@@ -187,19 +262,21 @@ func dash(s string) string {
 	return s
 }
 
-func (w *world) opLine(g *gspec, level int, files []string, changed0 []int) string {
+func (w *world) opLine(g *gspec, level int, files []string, changed0 []int, fl filt) string {
 	names := make([]string, len(g.t))
 	for i, t := range g.t {
 		names[i] = t.name
 	}
-	var adj, ins, tls []string
+	var adj, ins, tls, lbs []string
 	for id := 0; id < w.n; id++ {
+		lbs = append(lbs, fmt.Sprintf("%d:%s", id, dash(strings.Join(w.targets[id].Labels, "|"))))
 		adj = append(adj, fmt.Sprintf("%d:%s", id, lib.Nats(w.adj[id])))
 		ins = append(ins, fmt.Sprintf("%d:%s", id, dash(strings.Join(w.inputs[id], "|"))))
 		tls = append(tls, fmt.Sprintf("%d:%s", id, dash(strings.Join(w.tools[id], "|"))))
 	}
 	return strings.Join([]string{"changes", lvlStr(level), dash(strings.Join(files, ",")), lib.Nats(changed0), dash(strings.Join(names, ",")),
-		dash(strings.Join(w.pkgs, ",")), lib.Nats(w.nodes), dash(strings.Join(adj, ";")), dash(strings.Join(ins, ";")), dash(strings.Join(tls, ";"))}, " ")
+		dash(strings.Join(w.pkgs, ",")), lib.Nats(w.nodes), dash(strings.Join(adj, ";")), dash(strings.Join(ins, ";")), dash(strings.Join(tls, ";")), dash(strings.Join(lbs, ";")),
+		fl.field(fl.include), fl.field(fl.exclude)}, " ")
 }
 
 func (w *world) ids(ls core.BuildLabels) []int {
@@ -277,17 +354,18 @@ func (w *world) dependents(seed map[int]bool) map[int]bool {
 	return out
 }
 
-func runChanges(r *lib.Run, g *gspec, w *world, files []string, level int, tag string) {
-	op := w.opLine(g, level, files, nil)
+func runChanges(r *lib.Run, g *gspec, w *world, files []string, level int, fl filt, tag string) {
+	op := w.opLine(g, level, files, nil, fl)
 	var got []int
 	res := lib.Safely(func() string {
-		got = w.ids(query.Changes(w.state, files, level, false))
+		withFilter(w.state, fl, func() { got = w.ids(query.Changes(w.state, files, level, false)) })
 		return lib.Nats(got)
 	})
 	gotSet := map[int]bool{}
 	for _, x := range got {
 		gotSet[x] = true
 	}
+	inc := func(id int) bool { return included(w.targets[id].Labels, fl) }
 	direct := map[int]bool{}
 	viaSrc := map[int]bool{} // consumers through a source or data file (not only through a file tool)
 	for _, f := range files {
@@ -305,7 +383,7 @@ func runChanges(r *lib.Run, g *gspec, w *world, files []string, level int, tag s
 			if !viaTool {
 				viaSrc[id] = true
 			}
-			if !gotSet[id] {
+			if !gotSet[id] && inc(id) {
 				cls := "changes-consumer-missed"
 				if viaTool {
 					cls = "changes-file-tool-not-a-source"
@@ -314,33 +392,51 @@ func runChanges(r *lib.Run, g *gspec, w *world, files []string, level int, tag s
 			}
 		}
 	}
-	if level == -1 {
-		fromSrc := w.dependents(viaSrc)
-		for id := range w.dependents(direct) {
-			if !gotSet[id] && !direct[id] {
+	hiddenSeed := false
+	for id := range direct {
+		if !inc(id) {
+			hiddenSeed = true
+		}
+	}
+	if level != 0 {
+		fromSrc := w.withinSteps(viaSrc, level)
+		for id := range w.withinSteps(direct, level) {
+			if !gotSet[id] && !direct[id] && inc(id) {
 				cls := "changes-dependent-missed"
 				if !fromSrc[id] { // only below a target that consumes the file as a tool: same root cause
 					cls = "changes-file-tool-not-a-source"
 				}
-				r.OracleFail(cls, op, fmt.Sprintf("target %d (%s) depends on a target that consumes a changed file but is not reported; reported: %s", id, w.labels[id], res))
+				r.OracleFail(cls, op, fmt.Sprintf("target %d (%s) depends (within the level) on a target that consumes a changed file but is not reported; include=%v exclude=%v; reported: %s", id, w.labels[id], fl.include, fl.exclude, res))
 			}
 		}
 	}
+	for _, id := range got {
+		if !inc(id) {
+			r.OracleFail("changes-reports-filtered-target", op, fmt.Sprintf("target %d (%s) is excluded by include=%v exclude=%v but is reported", id, w.labels[id], fl.include, fl.exclude))
+		}
+	}
 	r.Count(tag)
+	if len(fl.include)+len(fl.exclude) > 0 {
+		r.Count("filtered-query")
+		if hiddenSeed && level != 0 {
+			r.Count("filtered-query:a-directly-changed-target-is-hidden")
+		}
+	}
 	r.Emit(op, res, len(direct) > 0)
 }
 
 // runDiff: before/after graphs; `edited` are the targets whose definition differs (by construction).
-func runDiff(r *lib.Run, gb, ga *gspec, edited []int, collide []int, files []string, level int, tag string) {
+func runDiff(r *lib.Run, gb, ga *gspec, edited []int, collide []int, files []string, level int, fl filt, tag string) {
 	wb, wa := build(gb), build(ga)
 	var c0 []int
 	lib.Safely(func() string { c0 = wa.ids(query.DiffGraphs(wb.state, wa.state, nil, 0, false)); return "" })
-	op := wa.opLine(ga, level, files, c0)
+	op := wa.opLine(ga, level, files, c0, fl)
 	var got []int
 	res := lib.Safely(func() string {
-		got = wa.ids(query.DiffGraphs(wb.state, wa.state, files, level, false))
+		withFilter(wa.state, fl, func() { got = wa.ids(query.DiffGraphs(wb.state, wa.state, files, level, false)) })
 		return lib.Nats(got)
 	})
+	inc := func(id int) bool { return included(wa.targets[id].Labels, fl) }
 	gotSet := map[int]bool{}
 	for _, x := range got {
 		gotSet[x] = true
@@ -352,7 +448,7 @@ func runDiff(r *lib.Run, gb, ga *gspec, edited []int, collide []int, files []str
 	seed := map[int]bool{}
 	for _, id := range edited {
 		seed[id] = true
-		if !gotSet[id] {
+		if !gotSet[id] && inc(id) {
 			cls := "changes-definition-change-missed"
 			if isCollide[id] {
 				cls = "changes-rulehash-unframed"
@@ -360,14 +456,14 @@ func runDiff(r *lib.Run, gb, ga *gspec, edited []int, collide []int, files []str
 			r.OracleFail(cls, op, fmt.Sprintf("the definition of target %d (%s) changed but it is not reported; reported: %s", id, wa.labels[id], res))
 		}
 	}
-	if level == -1 {
-		for id := range wa.dependents(seed) {
-			if !gotSet[id] && !seed[id] {
+	if level != 0 {
+		for id := range wa.withinSteps(seed, level) {
+			if !gotSet[id] && !seed[id] && inc(id) {
 				// dependents of a collided (missed) definition change share its root cause
 				cls := "changes-dependent-missed"
 				onlyCollide := true
 				for _, e := range edited {
-					if !isCollide[e] && wa.dependents(map[int]bool{e: true})[id] {
+					if !isCollide[e] && wa.withinSteps(map[int]bool{e: true}, level)[id] {
 						onlyCollide = false
 					}
 				}
@@ -387,7 +483,7 @@ func runDiff(r *lib.Run, gb, ga *gspec, edited []int, collide []int, files []str
 func replayOp(r *lib.Run, op string) {
 	f := strings.Split(op, " ")
 	bad := func() { r.Emit(op, "bad-op", false) }
-	if len(f) != 10 || f[0] != "changes" {
+	if len(f) != 13 || f[0] != "changes" {
 		bad()
 		return
 	}
@@ -556,8 +652,53 @@ func replayOp(r *lib.Run, op string) {
 		bad()
 		return
 	}
+	// labels and filters
+	got = map[int]bool{}
+	if f[10] != "-" {
+		for _, e := range strings.Split(f[10], ";") {
+			kv := strings.Split(e, ":")
+			if len(kv) != 2 || kv[1] == "" {
+				bad()
+				return
+			}
+			k, ok1 := okList(kv[0], n, 1)
+			if !ok1 || got[k[0]] {
+				bad()
+				return
+			}
+			got[k[0]] = true
+			if kv[1] != "-" {
+				for _, l := range strings.Split(kv[1], "|") {
+					if l == "" {
+						bad()
+						return
+					}
+					g.t[k[0]].labels = append(g.t[k[0]].labels, l)
+				}
+			}
+		}
+	}
+	if len(got) != n {
+		bad()
+		return
+	}
+	var fl filt
+	for i, dst := range []*[]string{&fl.include, &fl.exclude} {
+		if f[11+i] == "-" {
+			continue
+		}
+		for _, e := range strings.Split(f[11+i], ";") {
+			for _, l := range strings.Split(e, ",") {
+				if l == "" {
+					bad()
+					return
+				}
+			}
+			*dst = append(*dst, e)
+		}
+	}
 	w := buildShared(g)
-	runChanges(r, g, w, files, level, "replay")
+	runChanges(r, g, w, files, level, fl, "replay")
 }
 
 // ---------------------------------------------------------------- generators
@@ -597,6 +738,11 @@ func randomGraph(r *lib.Run) *gspec {
 		if g.Chance(25) {
 			ts.testCmd = "run"
 		}
+		for _, l := range []string{"manual", "go", "py"} {
+			if g.Chance(22) {
+				ts.labels = append(ts.labels, l)
+			}
+		}
 		if g.Chance(20) {
 			ts.binary = true
 		}
@@ -613,6 +759,52 @@ func randomGraph(r *lib.Run) *gspec {
 		}
 	}
 	return gs
+}
+
+// randomFilter: no filter, the `--exclude manual` that `plz query changes` always adds, or user -i / -e flags
+func randomFilter(r *lib.Run) filt {
+	g := r.Rng
+	switch g.Intn(6) {
+	case 0, 1:
+		return filt{}
+	case 2, 3:
+		return filt{exclude: []string{"manual"}}
+	case 4:
+		return filt{include: []string{lib.Pick(g, []string{"go", "py", "go,py"})}, exclude: []string{"manual"}}
+	default:
+		return filt{include: []string{"go", "py"}, exclude: []string{lib.Pick(g, []string{"manual", "manual,go", "py"})}}
+	}
+}
+
+// hiddenSeedCase plants the delicate shape: the target that sits directly on the changed file carries an excluded label
+// (or lacks the included one) and has dependants that are shown.
+func hiddenSeedCase(r *lib.Run) (*gspec, []string, filt) {
+	g := r.Rng
+	gs := &gspec{}
+	k := 2 + g.Intn(4)
+	fl := filt{exclude: []string{"manual"}}
+	seedLabels := []string{"manual"}
+	if g.Chance(35) {
+		fl = filt{include: []string{"go"}}
+		seedLabels = nil
+	}
+	gs.t = append(gs.t, tspec{name: "a:gen", srcs: []string{"x.go"}, labels: seedLabels, cmd: "gen"})
+	for i := 1; i < k; i++ {
+		ts := tspec{name: fmt.Sprintf("a:t%d", i), cmd: "c", labels: []string{"go"}}
+		ts.deps = append(ts.deps, g.Intn(i)) // a chain / tree hanging off the hidden seed
+		if g.Chance(20) {
+			ts.labels = append(ts.labels, "manual")
+		}
+		if g.Chance(25) {
+			ts.srcs = append(ts.srcs, "y.go")
+		}
+		gs.t = append(gs.t, ts)
+	}
+	files := []string{"a/x.go"}
+	if g.Chance(20) {
+		files = append(files, "a/y.go")
+	}
+	return gs, files, fl
 }
 
 // filesFor picks changed files that mostly hit what the targets of the graph declare: an input itself, a file
@@ -731,15 +923,21 @@ func main() {
 		gb := &gspec{t: []tspec{{name: "a:lib", srcs: []string{"ab", "c"}, cmd: "cat $SRCS"}, {name: "a:bin", deps: []int{0}, cmd: "true"}}}
 		ga := clone(gb)
 		ga.t[0].srcs = []string{"a", "bc"}
-		runDiff(r, gb, ga, []int{0}, []int{0}, nil, -1, "planted-rulehash-witness")
+		runDiff(r, gb, ga, []int{0}, []int{0}, nil, -1, filt{}, "planted-rulehash-witness")
 	}
 	for i := 0; i < r.N(4000, 40000); i++ {
 		gs := randomGraph(r)
 		w := buildShared(gs)
 		for k := 0; k < 3; k++ {
 			lvl := []int{-1, -1, 0, 1, 2}[r.Rng.Intn(5)]
-			runChanges(r, gs, w, filesFor(r, gs), lvl, "changes")
+			runChanges(r, gs, w, filesFor(r, gs), lvl, randomFilter(r), "changes")
 		}
+	}
+	// the directly changed target is hidden by the filter, its dependants are not
+	for i := 0; i < r.N(800, 10000); i++ {
+		gs, files, fl := hiddenSeedCase(r)
+		w := buildShared(gs)
+		runChanges(r, gs, w, files, []int{-1, -1, 1, 2, 3, 0}[r.Rng.Intn(6)], fl, "hidden-seed")
 	}
 	for i := 0; i < r.N(400, 6000); i++ {
 		gb := randomGraph(r)
@@ -778,10 +976,11 @@ func main() {
 		if r.Rng.Chance(30) {
 			files = filesFor(r, ga)
 		}
-		runDiff(r, gb, ga, edited, collide, files, []int{-1, -1, 0, 1}[r.Rng.Intn(4)], "diff")
+		runDiff(r, gb, ga, edited, collide, files, []int{-1, -1, 0, 1, 2}[r.Rng.Intn(5)], randomFilter(r), "diff")
 	}
-	for _, op := range []string{"changes", "changes x - - .:a . 0 0:- 0:- 0:-", "changes u - - .:a . 0,0 0:- 0:- 0:-", "changes u - - .:a . 0 0:1 0:- 0:-",
-		"changes u - - .:a . 0 0:- 0: 0:-", "changes u - - .:a . 0 0:- 1:- 0:-", "changes u - - .:a . 0 0:- 0:-"} {
+	for _, op := range []string{"changes", "changes x - - .:a . 0 0:- 0:- 0:- 0:- - -", "changes u - - .:a . 0,0 0:- 0:- 0:- 0:- - -", "changes u - - .:a . 0 0:1 0:- 0:- 0:- - -",
+		"changes u - - .:a . 0 0:- 0: 0:- 0:- - -", "changes u - - .:a . 0 0:- 1:- 0:- 0:- - -", "changes u - - .:a . 0 0:- 0:- 0:-", "changes u - - .:a . 0 0:- 0:- 0:- 0: - -",
+		"changes u - - .:a . 0 0:- 0:- 0:- 0:- go,, -"} {
 		replayOp(r, op)
 	}
 }
